@@ -126,12 +126,20 @@ pub fn gen_tree_case(rng: &mut SplitMix64, id: u64) -> Case {
                 }
             }
         }
+        // half of the drains use one kind of removal throughout, so that every kind gets to be the
+        // one that shrinks the tree bin back to a list
+        let uniform = if rng.chance(1, 2) { Some(rng.below(3)) } else { None };
         for k in drain.iter().take(m as usize) {
-            ops.push(match rng.below(8) {
-                0 => Op::RemoveEntry(*k),
-                1 => Op::Compute(*k, 0),
-                2 => Op::Compute(*k, 1),
-                _ => Op::Remove(*k),
+            ops.push(match uniform {
+                Some(0) => Op::Compute(*k, 0),
+                Some(1) => Op::RemoveEntry(*k),
+                Some(_) => Op::Remove(*k),
+                None => match rng.below(8) {
+                    0 => Op::RemoveEntry(*k),
+                    1 => Op::Compute(*k, 0),
+                    2 => Op::Compute(*k, 1),
+                    _ => Op::Remove(*k),
+                },
             });
         }
         match rng.below(6) {
